@@ -106,12 +106,6 @@ def lifecycle_descs(tier, seed, hib_values=(False, True), objs=("twofunnel", "pl
     for j, eng in enumerate([("SEA", "DE"), ("DE", "SEA", "CMAf"), ("SHADE", "GA")]):
         out.append(("bounded", dict(engines=list(eng), gens=1, Mh=5, hib=False, seed=s + j, choices="GLS", lsc=[{"kind": "steadiness", "n": 2, "dev": 0.0}] * len(eng),
                                     gsc={"kind": "horizon"}, maximize=bool(j % 2), obj="tiny_offset", sprout={"kind": "scripted", "L": 2, "default": 1})))
-    # one-dimensional and five-dimensional problems; MWEA election group as large as the population
-    for j, (eng, box) in enumerate([(("SEA", "DE"), "B_1d"), (("DE", "SHADE", "LOC"), "B_1d"), (("LHS", "GA"), "B_1d"), (("SEA", "CMAf"), "B_5d"), (("SHADE", "CMAw", "DE"), "B_5d"),
-                                    (("MWEA", "SEAX"), "B_5d"), (("MWEA", "DE"), "B_asym")]):
-        out.append(("bounded", dict(engines=list(eng), gens=1 + j % 2, Mh=4, hib=bool(j % 2), seed=s + j, choices="GLS", lsc=[None] + [{"kind": "metaepoch", "m": 2}] * (len(eng) - 1),
-                                    gsc={"kind": "horizon"}, maximize=bool(j % 2), obj=("twofunnel", "sphere_in", "plateau")[j % 3], box=box, mwea_group=6 if box == "B_asym" else 4,
-                                    sprout={"kind": "scripted", "L": 2, "default": 1})))
     # children sampled with spread 0 (a degenerate initial population: every member is the seed itself)
     for j, eng in enumerate([("SEA", "DE"), ("DE", "SHADE", "SEA"), ("LHS", "DEd"), ("GA", "SEAX", "MWEA")]):
         out.append(("bounded", dict(engines=list(eng), gens=1 + j % 2, Mh=4, hib=bool(j % 2), seed=s + j, choices="GLS", lsc=[None] + [{"kind": "metaepoch", "m": 2}] * (len(eng) - 1),
@@ -122,6 +116,13 @@ def lifecycle_descs(tier, seed, hib_values=(False, True), objs=("twofunnel", "pl
         for hib in hib_values:
             out.append(("bounded", dict(engines=list(eng), gens=1, Mh=6, hib=hib, seed=s + j, choices="GLS", lsc=[None, "allchildren", {"kind": "metaepoch", "m": 1 + j % 2}],
                                         gsc={"kind": "horizon"}, maximize=bool(j % 2), obj="twofunnel", sprout={"kind": "scripted", "L": 2, "default": 1})))
+    # (kept last: worlds of other dimensions must not be the first thing a worker process sees)
+    # one-dimensional and five-dimensional problems; MWEA election group as large as the population
+    for j, (eng, box) in enumerate([(("SEA", "DE"), "B_1d"), (("DE", "SHADE", "LOC"), "B_1d"), (("LHS", "GA"), "B_1d"), (("SEA", "CMAf"), "B_5d"), (("SHADE", "CMAw", "DE"), "B_5d"),
+                                    (("MWEA", "SEAX"), "B_5d"), (("MWEA", "DE"), "B_asym")]):
+        out.append(("bounded", dict(engines=list(eng), gens=1 + j % 2, Mh=4, hib=bool(j % 2), seed=s + j, choices="GLS", lsc=[None] + [{"kind": "metaepoch", "m": 2}] * (len(eng) - 1),
+                                    gsc={"kind": "horizon"}, maximize=bool(j % 2), obj=("twofunnel", "sphere_in", "plateau")[j % 3], box=box, mwea_group=6 if box == "B_asym" else 4,
+                                    sprout={"kind": "scripted", "L": 2, "default": 1})))
     # every other world: the (user-written) stop conditions answer numpy.bool_ / int instead of bool
     for k, (_, d) in enumerate(out):
         if k % 2:
